@@ -74,6 +74,16 @@ def gen_inputs(key, r):
             if not ((Wm > 0).any() and (Wm < 0).any()):
                 return None
         return d
+    if base == 'makeringlatticeCIJ':
+        nn = int(r.randint(1, 9))
+        return dict(n=nn, k=int(r.randint(0, nn * nn - nn + 1)), seed=Scripted((), fallback_seed=int(r.randint(1 << 30)), max_draws=2000))
+    if base in ('makerandCIJ_dir', 'makerandCIJ_und'):
+        nn = int(r.randint(1, 8))
+        top = nn * nn - nn if base.endswith('dir') else (nn * nn - nn) // 2
+        return dict(n=nn, k=int(r.randint(0, top + 1)), seed=Scripted((), fallback_seed=int(r.randint(1 << 30)), max_draws=2000))
+    if base == 'maketoeplitzCIJ':
+        nn = int(r.randint(4, 9))
+        return dict(n=nn, k=int(r.randint(2, 2 * nn)), s=float(r.choice([1., 1.5, 2.5])), seed=Scripted((), fallback_seed=int(r.randint(1 << 30)), max_draws=4000000))
     if base == 'modularity_louvain_und':
         Wm = _und(r, n + int(r.randint(0, 4)), p=float(r.choice([.3, .5, .8])))
         if Wm.sum() <= 0:
